@@ -898,6 +898,7 @@ STREAMS = [
     [b"{%d}\r\n" % len(_PROTO_LIKE) + _PROTO_LIKE + b"\r\nOK\r\n"],
     [b'BYE "too many connections"\r\n', b"OK\r\n"],    # the BYE line is consumed like any other: what follows it is not BYE again
     [b'"' + b"n" * 300 + b'"\r\nOK\r\n'],                # RFC 5804: names of up to 512 octets must work
+    [b"{0}\r\n\r\nOK\r\n", b'"n"\r\nOK\r\n'],         # an empty value (an empty script) sent as a literal of no octets
 ]
 
 
@@ -920,6 +921,7 @@ EXPECTED = [
     [(b"OK", None, _PROTO_LIKE)],
     [("raise", "Error"), (b"OK", None, b"")],
     [(b"OK", None, b'"' + b"n" * 300 + b'"\r\n')],
+    [(b"OK", None, b"\r\n"), (b"OK", None, b'"n"\r\n')],   # (the line end after a value that does not end with CRLF is part of the data)
 ]
 
 
